@@ -792,6 +792,89 @@ def pptx_contracts(reg):
         note="symbolic tree shape: every number of rows, every (ragged) number of cells per row")]
 
 
+# ============================================================ DOCX rows / cells (symbolic shape) ==
+DOCX = "sharepoint2text/parsing/extractors/ms_modern/docx_extractor.py"
+CP_N = z3.Function("docx_cell_paragraphs_n", ET.ELEM, I)            # paragraphs of a cell outside tables nested in it (document order)
+CP_AT = z3.Function("docx_cell_paragraph_at", ET.ELEM, I, ET.ELEM)
+
+
+def docx_contracts(reg):
+    """`_extract_tables_from_context` on a body of SYMBOLIC shape: every table that the two outer loops reach gets the grid of its direct
+    w:tr / w:tc children (any number of rows, ragged rows), and a cell holds EVERY paragraph that `_iter_cell_paragraphs(tc)` yields,
+    each exactly once, in order, joined by a newline (no paragraph filtered, whatever its children are).  `_iter_cell_paragraphs` is
+    ASSUMED here to yield the cell's paragraphs outside nested tables (CP_N / CP_AT); the generator itself, the order of the tables and
+    the nesting are covered by the bounded walker `w_docx`.  The two outer loops carry the invariant len(tables) == len(anchors)."""
+    from contracts import C13_bounded as Bm
+    m = loader.module(DOCX)
+    fq = "_extract_tables_from_context"
+    if fq not in m.functions:
+        return []
+    TR, TC = z3.StringVal(Bm.DOCX_TAGS["row"]), z3.StringVal(Bm.DOCX_TAGS["cell"])      # w:tr / w:tc of the statement (not read from the code)
+    Bm.install_str_models(reg)
+    reg.add(Bm.assumed_text(DOCX, "_collect_text_from_element"))
+
+    def cp_ret(c):
+        e = c.args["element"]
+        if not isinstance(e, VExt):
+            from pyvc.symex import Unsupported
+            raise Unsupported("_iter_cell_paragraphs on a value that is not an element of the symbolic tree")
+        return VSeq(CP_N(e.t), lambda k, e=e.t: ET.elem(CP_AT(e, k)), "Elem")
+    reg.add(FnContract(target=f"{DOCX}::_iter_cell_paragraphs", params=[("element", p_unk())], assumed=True,
+                       returns=cp_ret,
+                       note="the w:p descendants of the cell that are not inside a nested table, in document order (bounded: w_docx)"))
+
+    def cell_text(tc):
+        return JOIN(NLS, VSeq(CP_N(tc), lambda k, tc=tc: VStr(Bm.PTEXT(CP_AT(tc, k))), "str"))
+
+    def row_spec(tr):
+        return VSeq(ET.FA_N(tr, TC), lambda j, tr=tr: VStr(cell_text(ET.FA_AT(tr, TC, j))), "str")
+
+    def grid(tbl):
+        return VSeq(ET.FA_N(tbl, TR), lambda i, tbl=tbl: row_spec(ET.FA_AT(tbl, TR, i)), "row")
+
+    lv = loop_vars(DOCX, fq)
+    if len(lv) != 4 or not all(d["built"] and d["iter_base"] for d in lv[2:]) or not lv[1]["built"]:
+        return []                      # another loop structure: the bounded walker stays the only defence (nothing is claimed here)
+    rows, cells = lv[2], lv[3]
+    tabs = lv[1]["built"]
+    fnode = m.functions[fq]
+    anchors = [n.func.value.id for n in ast.walk(fnode) if isinstance(n, ast.Call) and isinstance(n.func, ast.Attribute) and n.func.attr == "append"
+               and isinstance(n.func.value, ast.Name) and n.func.value.id not in (tabs, rows["built"], cells["built"])]
+    if len(set(anchors)) != 1:
+        return []
+    anch = anchors[0]
+
+    def inv_len(lc):
+        a, b = lc.ex.as_seq(lc.st, lc[tabs]), lc.ex.as_seq(lc.st, lc[anch])
+        return z3.BoolVal(False) if a is None or b is None else a.n == b.n
+
+    def inv_rows(lc):
+        return z3.And(seq_eq(lc.ex.as_seq(lc.st, lc[rows["built"]]), take(grid(lc[rows["iter_base"]].t), lc.i)), inv_len(lc))
+
+    def inv_cells(lc):
+        return z3.And(seq_eq(lc.ex.as_seq(lc.st, lc[cells["built"]]), take(row_spec(lc[cells["iter_base"]].t), lc.i)), inv_len(lc))
+
+    def post(c):
+        r = c.result
+        if not isinstance(r, VTuple) or len(r.items) != 2:
+            return z3.BoolVal(False)
+        a, b = c.ex.as_seq(c.st, r.items[0]), c.ex.as_seq(c.st, r.items[1])
+        return z3.BoolVal(False) if a is None or b is None else a.n == b.n
+
+    GRID3, INTS = ("list", ("list", ("list", "str"))), ("list", "int")
+    return [FnContract(
+        target=f"{DOCX}::{fq}", params=[("ctx", p_obj("_DocxContext", {"document_body": p_ext("Elem")}))],
+        ensures=[("one-anchor-per-table", post)], raises=[],
+        loops={0: LoopSpec(inv=inv_len, havoc=((tabs, GRID3), (anch, INTS)), label="blocks"),
+               1: LoopSpec(inv=inv_len, havoc=((tabs, GRID3), (anch, INTS)), label="tables"),
+               2: LoopSpec(inv=inv_rows, havoc=((rows["built"], ("list", ("list", "str"))),), label="rows"),
+               3: LoopSpec(inv=inv_cells, havoc=((cells["built"], ("list", "str")),), label="cells")},
+        note="symbolic tree shape: every number of rows and (ragged) cells; a cell = all its own paragraphs joined by a newline")]
+
+
+NLS = z3.StringVal("\n")
+
+
 # =============================================================== RTF row matching ==
 RTF = "sharepoint2text/parsing/extractors/ms_legacy/rtf_extractor.py"
 REGEX, MATCH = ext_sort("Regex"), ext_sort("Match")
@@ -1152,6 +1235,13 @@ def ods_value_contracts(reg):
                        note="date / time -> the stored ISO text unchanged; boolean -> bool; numbers -> int when integral else float")]
 
 
+def _guarded(f, reg):
+    try:
+        return f(reg)
+    except Exception:  # noqa  (a contract that cannot be set up claims nothing; the bounded walkers stay)
+        return []
+
+
 def contracts(reg):
     from contracts.symlist import register_over
     register_over()
@@ -1160,6 +1250,8 @@ def contracts(reg):
     out += dim_contracts(reg)
     out += value_contracts(reg)
     out += pptx_contracts(reg)
+    # docx_contracts(reg) is NOT wired in yet (round 6, open): the loop variable of `for child in list(body)` reaches
+    # `_iter_cell_paragraphs` as an unknown value, so the function would be OUT-OF-SUBSET (exit 2) instead of proved
     out += rtf_contracts(reg)
     out += ods_value_contracts(reg)
     return out
